@@ -38,6 +38,19 @@ fn scenario(seed: u64, i: usize) -> Scenario {
             e.handlers.push((*rng.pick(&[1u8, 7, 8]), 4));
         }
     }
+    // a cancel at the sender in mid-transfer whose handshake is not answered: the Abandon that
+    // follows (and a suspend / resume of the cancelled transaction) reports the sender's progress
+    if rng.chance(1, 6) {
+        let at = Trigger::AfterPdu { src: 0, dst: 1, n: rng.below(nf as u64 + 1) as u32 };
+        sc.script.push(Entry::User { ent: 0, op: UserOp::Cancel, put: 0, at: at.clone() });
+        if rng.chance(2, 3) {
+            sc.script.push(Entry::Blackout { src: 1, dst: 0, from: at.clone(), until: Trigger::Never });
+        }
+        if rng.chance(1, 2) {
+            sc.script.push(Entry::User { ent: 0, op: UserOp::Suspend, put: 0, at: Trigger::Plus(Box::new(at.clone()), 1000) });
+            sc.script.push(Entry::User { ent: 0, op: UserOp::Resume, put: 0, at: Trigger::Plus(Box::new(at), 5000) });
+        }
+    }
     let nops = rng.range(1, 5);
     for _ in 0..nops {
         let at = Trigger::AfterPdu { src: 0, dst: 1, n: rng.below(nf as u64 + 2) as u32 };
